@@ -261,6 +261,12 @@ class FakeOS(object):
     def __getattr__(self, name):
         return getattr(_real_os, name)
 
+    @property
+    def environ(self):
+        # the daemon's own environment, when the script sets one (PATH searches of slash-less commands)
+        env = getattr(self._k, 'environ', None)
+        return _real_os.environ if env is None else env
+
     def fork(self):
         return self._k.fork()
 
@@ -298,6 +304,10 @@ class FakeOS(object):
         return 999
 
     def stat(self, path):
+        if path in ('/bin/simcmd', '/sim/bin/simcmd'):       # where the slash-less command `simcmd` can be found
+            return _real_os.stat_result((0o100755, 1, 1, 1, 0, 0, 0, 0, 0, 0))
+        if path.endswith('/simcmd') or path == 'simcmd':
+            raise OSError(errno.ENOENT, 'sim: not in this directory')
         if path.startswith('sim/'):          # a relative command name with a slash is used as given, not searched in PATH
             return _real_os.stat_result((0o100755, 1, 1, 1, 0, 0, 0, 0, 0, 0))
         if path.startswith('/sim/'):
@@ -312,6 +322,8 @@ class FakeOS(object):
         return _real_os.stat(path)
 
     def access(self, path, mode):
+        if path in ('/bin/simcmd', '/sim/bin/simcmd'):
+            return True
         if path.startswith('/sim/') or path.startswith('sim/'):
             if path.startswith('/sim/noperm'):
                 # execute bits are set, but not for this user: readable, not executable
